@@ -700,6 +700,10 @@ func (c *c08Run) pair(v cty.Value, t cty.Type, deep bool) {
 			sig := c08Kind(v.Type()) + ">" + c08Kind(t)
 			if c08EmptyCollWithDyn(r) {
 				sig = "empty-collection-keeps-nested-placeholder"
+			} else if c08HasUnknownLengthSet(v) && !r.IsWhollyKnown() {
+				// the unknown list standing for a set of unknown length takes the target's
+				// element type as written, nested placeholders included
+				sig = "set-unknown-length-keeps-nested-placeholder"
 			}
 			c.fail("result_resolves_placeholders", sig, "the result type has a placeholder where the input type had none", v, t, c08Outcome(out))
 		case "pass-through":
